@@ -233,14 +233,15 @@ pub fn scan<V: Vary>(
 #[inline]
 fn round_up_to_half(x: f32) -> f32 {
     #[cfg(feature = "fp")]
-    {
+    let n = {
         use crate::math::float::f32;
-        f32::floor(x + 0.5) + 0.5
-    }
+        f32::floor(x + 0.5)
+    };
     #[cfg(not(feature = "fp"))]
-    {
-        (x + 0.5) as i32 as f32 + 0.5
-    }
+    let n = (x + 0.5) as i32 as f32;
+    // `x + 0.5` is not always exact: 0.49999997 + 0.5 rounds up to 1.0,
+    // which would skip the pixel center at n - 0.5
+    if n - 0.5 > x { n - 0.5 } else { n + 0.5 }
 }
 
 #[cfg(test)]
